@@ -2203,7 +2203,11 @@ func (gs *GossipSubRouter) piggybackControl(p peer.ID, out *RPC, ctl *pb.Control
 }
 
 func (gs *GossipSubRouter) makePrune(p peer.ID, topic string, doPX bool, isUnsubscribe bool) *pb.ControlPrune {
-	if !gs.feature(GossipSubFeaturePX, gs.peers[p]) {
+	// The protocol of a peer is unknown while our outbound stream to it is being
+	// (re-)opened, yet its GRAFT can arrive on its inbound stream and be refused.
+	// Only a peer known to speak v1.0 gets the bare PRUNE; otherwise the backoff is
+	// stated (a v1.0 peer skips the fields it does not know).
+	if proto, known := gs.peers[p]; known && !gs.feature(GossipSubFeaturePX, proto) {
 		// GossipSub v1.0 -- no peer exchange, the peer won't be able to parse it anyway
 		return &pb.ControlPrune{TopicID: &topic}
 	}
